@@ -47,6 +47,12 @@ CLAIMS["C27"] = {
     "note": "Trusted: Kani/CBMC; stubs for String::from_utf8_lossy and zeroize's spare-capacity wiping. Outside: longer responses, the Unix socket stream, SecretKey encoding.",
 }
 
+CLAIMS["C22"] = {
+    "technique": _T + " (radicle-crdt shadowed with std B-trees replaced by a checked sorted-slot model): three symbolic operands per law harness",
+    "text": "For all u8 clocks and values the solver shows associativity, commutativity and idempotence of merge for Max, Min, bool, Option, Redactable, LWWReg (fully symbolic scalars) and for GMap, GSet, LWWMap, LWWSet on single-key operands in every absent/insert/remove layout (70 layouts), that LWW structures expose the value of the greatest clock with insertion winning at equal clocks, and that merging 2-key maps is pointwise in the keys (frame property, 128 layouts, 6 per quick run).",
+    "note": "Trusted: Kani/CBMC; the vcoll container model (differentially checked against std at size <= 2); the paper step from single-key laws + frame property to multi-key maps. Only `use std::collections` lines of the copied sources are rewritten; function bodies are those of /repo.",
+}
+
 NOT_APPLICABLE = {
     "C01": "post-fetch refdb contents vs signed refs: decided inside FetchState::run over gix transport, libgit2 ref transactions and ed25519 signatures (FFI / curve arithmetic) - not encodable for CBMC/SMT within reach (DESIGN §7)",
     "C02": "threshold gate and Behind/Diverged handling are statements inside FetchState::run between git I/O calls; no function boundary to drive symbolically (DESIGN §7)",
